@@ -11,7 +11,7 @@ from ..engine import fast_hash
 ID = 'C13'
 TITLE = 'Item-level errors on multiplexed streams are isolated and routable'
 LEVEL = 'model_checking'
-RULE = ('operator in {map, starmap, filter, scan} whose user function raises on chosen items x handler in {none, ignore, error.map, '
+RULE = ('operator in {map, starmap, filter, scan, scan(reduce=True)} whose user function raises on chosen items x handler in {none, ignore, error.map, '
         'error router} x a stateful operator behind the handler {scan, count, last, to_list} x keyed inputs of 1-3 keys with EVERY '
         'interleaving x EVERY subset of failing positions (total length up to the bound); through group_by / with_memory_store and '
         'on raw mux streams with key reuse. Compared per execution: the probe directly behind the operator sees exactly one mux '
@@ -19,7 +19,7 @@ RULE = ('operator in {map, starmap, filter, scan} whose user function raises on 
         'absent (ignore, router) / replaced in place by the mapped value (error.map); the dead-letter observable receives the '
         'exceptions in source order and completes once with the stream; without handler the subscriber gets the outputs before '
         'the first failure and then on_error with that exception. Non-trivial = at least one failing and one passing item.')
-DEEP_PROBES = ('four exception classes; two error routers in one pipeline, run twice on the same pipeline object; the failing operator in front of group_by / roll / split / time_split')
+DEEP_PROBES = ('scan(reduce=True) as the failing operator; every input of up to 3 items subscribed a second time on the same observable; four exception classes; two error routers in one pipeline, run twice on the same pipeline object; the failing operator in front of group_by / roll / split / time_split')
 ASSUMPTIONS = ['handlers are placed directly behind the failing operator (as stated)', 'total input length up to 5 (6 in thorough)']
 LEVEL_TEXT = ('Bounded-exhaustive model checking over the fault dimension: every subset of failing positions of every interleaved '
               'keyed input, for each operator/handler pair, against a direct model of "as if the item were absent". A routing '
@@ -93,6 +93,7 @@ OPS = {
     'starmap': (lambda: rs.ops.starmap(_f_star), lambda x: [_f_star(*x)]),
     'filter': (lambda: rs.ops.filter(_f_filter), lambda x: [x] if _f_filter(x) else []),
     'scan': (lambda: rs.ops.scan(_f_scan, 0), None),
+    'scanr': (lambda: rs.ops.scan(_f_scan, 0, reduce=True), None),     # the form the rs.math aggregates use
 }
 DOWN = {'scan': [['scan', 'add', '0']], 'count': [['count']], 'last': [['last']], 'to_list': [['to_list']], 'none': []}
 HANDLERS = ['none', 'ignore', 'map', 'router']
@@ -134,6 +135,7 @@ def units(tier):
 
 
 THROUGH = {
+    'flat': lambda inner: [],            # the failing operator directly under multiplex / with_store: the error reaches the outer demultiplexer
     'group_by': lambda inner: [['group_by', 'mod10_div2x', inner]],
     'roll21': lambda inner: [['roll', 2, 1, inner]],
     'roll22': lambda inner: [['roll', 2, 2, inner]],
@@ -180,7 +182,14 @@ class OpModel(object):
         if self.name == 'scan':
             self.acc = _f_scan(self.acc, x)
             return [self.acc]
+        if self.name == 'scanr':
+            self.acc = _f_scan(self.acc, x)
+            return []
         return OPS[self.name][1](x)
+
+    def end(self):
+        """Outputs at the completion of the key (the fold of the passing items for reduce=True)."""
+        return [self.acc] if self.name == 'scanr' else []
 
 
 def build_pipeline(case, probe, states=None):
@@ -277,10 +286,19 @@ def run_through(case, acc):
     ops = ops + opspecs.build(parent_spec)
     store = new_store()
     sink = Sink()
-    sink.subscribe_to(rx.from_(items).pipe(rs.state.with_store(store, ops)))
+    observable = rx.from_(items).pipe(rs.state.with_store(store, ops))
+    sink.subscribe_to(observable)
     acc.evals += 1
     acc.events += n + 1
     acc.traces += 1
+    again = None
+    if h != 'router' and n <= 3:
+        again = Sink()
+        again.subscribe_to(observable)
+        acc.evals += 1
+        acc.events += n + 1
+        acc.traces += 1
+        acc.count('second_subscriptions')
     m = opspecs.model(parent_spec)
     om = OpModel(case['op'])
     exp = []
@@ -297,6 +315,8 @@ def run_through(case, acc):
         for y in om.item(x):
             exp.extend(m.item(y))
     if not broke:
+        for y in om.end():
+            exp.extend(m.item(y))
         exp.extend(m.end())
     out = []
     if broke:
@@ -309,6 +329,10 @@ def run_through(case, acc):
         sp = harness.status_problem(sink)
         if sp:
             out.append(viol(case, 'through-%s-%s' % (case['parent'], sp), {'items': items, 'error': repr(sink.error)}))
+    if again is not None and (repr(again.items) != repr(sink.items) or again.completed != sink.completed or
+                              (type(again.error), _item_of(again.error)) != (type(sink.error), _item_of(sink.error))):
+        out.append(viol(case, 'through-%s-second-subscription-differs' % case['parent'],
+                        {'items': items, 'failing_positions': sorted(fail), 'first': [sink.items, sink.status()], 'second': [again.items, again.status()]}))
     if case['parent'] == 'tsplit':      # windows that time_split opens eagerly and that stay empty are not specified
         exp = [w for w in exp if w != []]
         sink.items = [w for w in sink.items if w != []]
@@ -351,13 +375,28 @@ def run_case(case, acc):
         pipeline = [rs.ops.group_by(keyf, ops)]
     store = new_store()
     sink = Sink()
-    sink.subscribe_to(rx.from_(items).pipe(rs.state.with_store(store, pipeline)))
+    observable = rx.from_(items).pipe(rs.state.with_store(store, pipeline))
+    sink.subscribe_to(observable)
     acc.evals += 1
     acc.events += len(items) + 1
     acc.traces += 1
     acc.states.update(states)
     out = []
     h = case['handler']
+    if h != 'router' and len(items) <= 3:
+        # the same observable subscribed again (retry / repeat / a second consumer): same items, same error, same completion
+        n_probe = len(probe)
+        again = Sink()
+        again.subscribe_to(observable)
+        del probe[n_probe:]
+        acc.evals += 1
+        acc.events += len(items) + 1
+        acc.traces += 1
+        acc.count('second_subscriptions')
+        if repr(again.items) != repr(sink.items) or again.completed != sink.completed or \
+                (type(again.error), _item_of(again.error)) != (type(sink.error), _item_of(sink.error)):
+            out.append(viol(case, 'second-subscription-differs', {'items': items, 'failing_positions': sorted(fail),
+                                                                  'first': [sink.items, sink.status()], 'second': [again.items, again.status()]}))
     # ---- probe: one mux error per failing item, right key, right position
     first_fail = min(fail) if fail else None
     upto = len(items) if h != 'none' or first_fail is None else first_fail + 1
@@ -373,6 +412,10 @@ def run_case(case, acc):
             exp_probe.append(('e', g))
         else:
             for _ in m.item(x):
+                exp_probe.append(('n', g))
+    if h != 'none' or first_fail is None:
+        for g in k_of_group:                     # groups complete in order of first appearance
+            for _ in models[g].end():
                 exp_probe.append(('n', g))
     got_probe = []
     key2g = {}
@@ -406,6 +449,8 @@ def run_case(case, acc):
             exp.extend(downs[g].item(y))
     else:
         for g in gorder:
+            for y in models[g].end():
+                exp.extend(downs[g].item(y))
             exp.extend(downs[g].end())
     if h == 'none' and fail:
         bad = items[first_fail]
@@ -478,7 +523,10 @@ def run_raw(case, acc):
             return o
 
         def end(self):
-            return self.d.end()
+            o = []
+            for y in self.m.end():
+                o.extend(self.d.item(y))
+            return o + self.d.end()
     exp = harness.expected_raw(Life, events)
     sp = harness.status_problem(sink)
     if sp:
@@ -486,7 +534,10 @@ def run_raw(case, acc):
     kind = harness.diff_kind(exp, sink.items)
     if kind:
         out.append(viol(case, 'raw-main-output-' + kind, {'events': events, 'down': case['down'], 'expected': exp, 'observed': sink.items}))
-    exp_probe = [('e' if _fails(e[2]) else 'n', (e[1],)) for e in events if e[0] == 'n' and (_fails(e[2]) or case['op'] != 'filter' or _f_filter(e[2]))]
+    if case['op'] == 'scanr':
+        exp_probe = [('e', (e[1],)) if e[0] == 'n' else ('n', (e[1],)) for e in events if (e[0] == 'n' and _fails(e[2])) or e[0] == 'd']
+    else:
+        exp_probe = [('e' if _fails(e[2]) else 'n', (e[1],)) for e in events if e[0] == 'n' and (_fails(e[2]) or case['op'] != 'filter' or _f_filter(e[2]))]
     got_probe = [(ev[0], ev[1]) for ev in probe if ev[0] in ('n', 'e')]
     if got_probe != exp_probe:
         out.append(viol(case, 'raw-probe-' + str(harness.diff_kind(exp_probe, got_probe)), {'events': events, 'expected_probe': exp_probe,
